@@ -94,6 +94,9 @@ class P:
         if self.opt("&"):
             self.opt("mut")
             return self.ty()
+        if self.opt("["):
+            el = self.ty(); self.eat(";"); self.expr(); self.eat("]")
+            return ("array", el)
         k, v, _ = self.next()
         if k != "id":
             raise SyntaxError(f"type expected, got {v}")
@@ -197,6 +200,12 @@ class P:
             if len(items) == 1 and not trailing:
                 return ("paren", items[0])
             return ("tuple", items)
+        if self.opt("["):
+            items = []
+            while not self.at("]"):
+                items.append(self.expr()); self.opt(",")
+            self.eat("]")
+            return ("arraylit", items)
         if self.at("if"):
             return self.if_expr()
         if self.at("match"):
@@ -361,7 +370,7 @@ def parse_fn(src, name, occ=0, key=None):
 
 
 # ----------------------------------------------------------------------------- back end
-MUT_PARAMS = {}     # fn name -> names of its `&mut` parameters (their final values are returned, before the declared result)
+MUT_PARAMS = {"u256_idiv_u128_special": ["xh", "xl"]}     # fn name -> names of its `&mut` parameters (their final values are returned, before the declared result)
 LOOP_FUEL = {}      # (fn name, loop index) -> fuel constant of the generated loop function
 
 
@@ -525,6 +534,9 @@ class Emit:
                 return hint
             if n == "from" and len(e[1]) == 2 and e[1][0] in INT_TYPES:
                 return e[1][0]
+            if n in MUT_PARAMS and (n in self.sigs or n in EXTERNAL):
+                rt = (self.sigs.get(n) or EXTERNAL[n])[1]
+                return rt[1][-1] if isinstance(rt, tuple) and rt[0] == "tuple" else rt
             if n in self.sigs:
                 return self.sigs[n][1]
             if n in EXTERNAL:
@@ -871,6 +883,22 @@ class Emit:
             l, x = self.ex(a, pt)
             ls += l; xs.append(f"({x})")
         v = self.fresh()
+        if n in MUT_PARAMS:
+            # the callee returns the final values of its `&mut` parameters first: rebind the variables passed for them
+            outs = []
+            for a, (pn, pt) in zip(args, ptys):
+                if pn in MUT_PARAMS[n]:
+                    a2 = a
+                    while a2[0] == "paren":
+                        a2 = a2[1]
+                    if a2[0] != "path" or len(a2[1]) != 1:
+                        raise Unsupported("&mut argument that is not a variable")
+                    outs.append(a2[1][0])
+            head = f"K.{n} prof" if n in self.sigs else EXTERNAL[n][2]
+            rt = (self.sigs.get(n) or EXTERNAL[n])[1]
+            has_val = not (isinstance(rt, tuple) and rt[0] == "tuple" and len(rt[1]) == len(outs)) and rt != "()"
+            pat = "(" + ", ".join(outs + ([v] if has_val else [])) + ")"
+            return ls + [f"let {pat} ← {head} " + " ".join(xs)], (v if has_val else "()")
         if n in self.sigs:
             tm = ""
             if TM_NEEDED.get(n):
@@ -905,6 +933,8 @@ class Emit:
         kind = s[0]
         if kind == "const":
             _, name, ty, e = s
+            if name in ARRAYS:          # a constant table: its contents come from Gen/Consts.lean (fpextract.py)
+                return self.stmts_term(rest, tail, ind, k)
             self.local_consts[name] = (ty, self.const_eval(e), None)
             return self.stmts_term(rest, tail, ind, k)
         if kind == "let":
@@ -949,7 +979,7 @@ class Emit:
 
             def rec(i):
                 return "  " * i + f"{lname} prof {args + ' ' if args else ''}fuel {' '.join(state)}\n"
-            btxt = self.stmts_term(list(body[1]), None, 3, rec)
+            btxt = self.stmts_term(self.as_stmts(body), None, 3, rec)
             if self.needs_tm:
                 raise Unsupported("loop body consults the rounding mode")
             self.needs_tm, self.env = saved_tm, saved_env
@@ -1068,7 +1098,10 @@ class Emit:
                     walk_block(st[2])
             if b[2] is not None:
                 walk_expr(b[2])
-        walk_block(blk)
+        if blk[0] == "block":
+            walk_block(blk)
+        else:
+            walk_expr(blk)
         return out
 
     def free_vars(self, *asts):
@@ -1086,6 +1119,13 @@ class Emit:
         for a in asts:
             walk(a)
         return [n for n in self.env if n in seen]
+
+    @staticmethod
+    def as_stmts(b):
+        """a block (or an `else if` expression) as a statement list; a tail `if`/`match` without `;` is a statement too"""
+        if b[0] == "block":
+            return list(b[1]) + ([("expr", b[2])] if b[2] is not None else [])
+        return [("expr", b)]
 
     def has_return(self, blk):
         return any(s[0] == "expr" and s[1][0] == "return" for s in blk[1]) or (blk[2] is not None and blk[2][0] == "return")
@@ -1107,8 +1147,8 @@ class Emit:
 
         def cont(i):
             return "  " * i + f"pure ({tup})\n"
-        thn = self.stmts_term(list(th[1]), None, ind + 2, cont)
-        els = self.stmts_term(list(el[1]), None, ind + 2, cont) if el else cont(ind + 2)
+        thn = self.stmts_term(self.as_stmts(th), None, ind + 2, cont)
+        els = self.stmts_term(self.as_stmts(el), None, ind + 2, cont) if el else cont(ind + 2)
         body = self.stmts_term(rest, tail, ind, k)
         return pre + f"{pad}let {tup} ← (if {xc} then (do\n{thn}{pad}  ) else (do\n{els}{pad}  ) : Outcome _)\n" + body
 
@@ -1230,7 +1270,8 @@ class Emit:
 # ----------------------------------------------------------------------------- driver
 GROUP_IMPORTS = {"KPow": ["Fpdec.Gen.Consts"], "KDivRounded": ["Fpdec.Gen.KRound", "Fpdec.Gen.KPow", "Fpdec.Model.Core"],
                  "KDecDiv": ["Fpdec.Gen.KDivRounded"], "KDecMul": ["Fpdec.Gen.KDivRounded", "Fpdec.Model.Decimal"], "KNorm": [],
-                 "KFloat": ["Fpdec.Gen.KNorm", "Fpdec.Gen.Consts", "Fpdec.Model.Core", "Fpdec.Model.Decimal"], "KRem": ["Fpdec.Gen.KPow"]}
+                 "KFloat": ["Fpdec.Gen.KNorm", "Fpdec.Gen.Consts", "Fpdec.Model.Core", "Fpdec.Model.Decimal"], "KRem": ["Fpdec.Gen.KPow"],
+                 "KWideDiv": ["Fpdec.Gen.KWide", "Fpdec.Gen.KPow", "Fpdec.Gen.Consts", "Fpdec.Model.Core"]}
 LOOP_FUEL.update({("normalize", 1): 256, ("approx_rational", 1): 32, ("rem", 1): 256})
 KERNELS = [
     # (group, file, fn name, self type for trait methods)
@@ -1256,6 +1297,11 @@ KERNELS = [
     ("KWide", "fpdec-core/src/lib.rs", "u128_hi", None),
     ("KWide", "fpdec-core/src/lib.rs", "u128_lo", None),
     ("KWide", "fpdec-core/src/lib.rs", "u128_mul_u128", None),
+    ("KWideDiv", "fpdec-core/src/lib.rs", "u128_msb", None),
+    ("KWideDiv", "fpdec-core/src/lib.rs", "u256_idiv_u64", None),
+    ("KWideDiv", "fpdec-core/src/lib.rs", "u256_idiv_u128", None),
+    ("KWideDiv", "fpdec-core/src/lib.rs", "i128_shifted_div_mod_floor", None, {"as": "i128_shifted_div_mod_floor_k"}),
+    ("KWideDiv", "fpdec-core/src/lib.rs", "i256_div_mod_floor", None, {"as": "i256_div_mod_floor_k"}),
     ("KLog", "fpdec-core/src/lib.rs", "less_than_5", None),
     ("KLog", "fpdec-core/src/lib.rs", "u32", None),
     ("KLog", "fpdec-core/src/lib.rs", "u64", None),
@@ -1274,6 +1320,8 @@ EXTERNAL = {
     "i256_div_mod_floor": ([("x1", "i128"), ("x2", "i128"), ("y", "i128")], ("Option", ("tuple", ["i128", "i128"])),
                            "Model.i256DivModFloor prof", True),
     "i128_magnitude": ([("i", "i128")], "u8", "Model.i128Magnitude", False),
+    "u256_idiv_u128_special": ([("xh", "u128"), ("xl", "u128"), ("y", "u128")], ("tuple", ["u128", "u128", "u128"]),
+                               "Model.u256IdivU128Special prof", True),
 }
 # named constants the kernels refer to: (type, value placeholder, Lean name in Gen/Consts.lean — regenerated by fpextract.py)
 GLOBAL_CONSTS = {
@@ -1281,7 +1329,7 @@ GLOBAL_CONSTS = {
     "src/from_float.rs": {"MAGN_I128_MAX": ("u8", None, "FROM_FLT_MAGN_I128_MAX")},
 }
 # constant tables (element type, Lean name — generated by tools/fpextract.py from the same source)
-ARRAYS = {"POWERS_OF_10": ("i128", "Gen.POWERS_OF_10")}
+ARRAYS = {"POWERS_OF_10": ("i128", "Gen.POWERS_OF_10"), "IDX_MAP": ("u8", "Gen.MSB_IDX_MAP")}
 TM_NEEDED = {}
 
 
